@@ -1,7 +1,12 @@
 package c12
 
 import (
+	"fmt"
+	"sync"
+	"sync/atomic"
 	"testing"
+
+	"github.com/cilium/statedb/part"
 
 	"verifharness/partsim"
 	"verifharness/vkit"
@@ -25,3 +30,100 @@ func run(t *testing.T, part string, rootOnly bool, n int) {
 
 func TestVerif_Watches(t *testing.T)         { run(t, "watches", false, vkit.N(5000, 300000)) }
 func TestVerif_WatchesRootOnly(t *testing.T) { run(t, "watches-rootonly", true, vkit.N(1500, 60000)) }
+
+// TestVerifRace_SharedLineage: tree values are immutable and may be used from any goroutine, and all trees of one lineage share the
+// slot through which a finished transaction object is handed on for reuse. One goroutine owns the main line (transaction, retained
+// channels, CommitAndNotify, verdicts: previous root channel and the Get/Prefix channels of the changed key closed, those of an
+// untouched key still open until its turn); two others keep opening transactions on the latest or an older tree of the same lineage,
+// write, and commit without notifying or abandon. Under the race detector: a transaction object that is handed on while its Notify is
+// still running shows as a data race and as channels that stay open.
+func TestVerifRace_SharedLineage(t *testing.T) {
+	r := vkit.Start(t, "C12", "shared-lineage-race", "exploration",
+		"real-time runs under the race detector: a main-line goroutine (Txn, Insert/Delete of one key, CommitAndNotify, channel verdicts) against two goroutines opening "+
+			"transactions on trees of the same lineage (commit without notify, or abandon); non-trivial = the side goroutines opened at least one transaction during the run; distinct = run index")
+	r.Require("watch_verdicts", "notified_commits", "side_txns")
+	runs := vkit.N(6, 120)
+	for run := 0; run < runs && r.Violations() < 3; run++ {
+		rng := r.Rand(run)
+		tree := part.New[int]()
+		var latest atomic.Pointer[part.Tree[int]]
+		t0 := tree
+		latest.Store(&t0)
+		stop := make(chan struct{})
+		var side atomic.Int64
+		var wg sync.WaitGroup
+		for g := 0; g < 2; g++ {
+			wg.Add(1)
+			go func(g int) {
+				defer wg.Done()
+				lrng := r.Rand(run, uint64(g)+1)
+				var old *part.Tree[int]
+				for i := 0; ; i++ {
+					select {
+					case <-stop:
+						return
+					default:
+					}
+					base := latest.Load()
+					if old != nil && lrng.IntN(3) == 0 {
+						base = old
+					}
+					if lrng.IntN(16) == 0 {
+						old = base
+					}
+					tx := base.Txn()
+					for k := lrng.IntN(3); k >= 0; k-- {
+						tx.Insert([]byte{byte('s'), byte(g), byte(lrng.IntN(8))}, i)
+					}
+					if lrng.IntN(2) == 0 {
+						tx.Commit() // a side branch: committed, never notified
+					}
+					side.Add(1)
+				}
+			}(g)
+		}
+		steps := 4000
+		present := map[byte]bool{}
+		for i := 0; i < steps && r.Violations() < 3; i++ {
+			cur := latest.Load()
+			k := byte(rng.IntN(12))
+			other := byte(12 + rng.IntN(4)) // never written by the main line
+			key := []byte{'m', k}
+			rootW := cur.RootWatch()
+			_, getW, _ := cur.Get(key)
+			_, prefW := cur.Prefix([]byte{'m', k})
+			_, otherW, _ := cur.Get([]byte{'m', other, 0})
+			tx := cur.Txn()
+			if present[k] && rng.IntN(2) == 0 {
+				tx.Delete(key)
+				delete(present, k)
+			} else {
+				tx.Insert(key, i)
+				present[k] = true
+			}
+			next := tx.CommitAndNotify()
+			r.Count("notified_commits", 1)
+			closed := func(c <-chan struct{}) bool {
+				select {
+				case <-c:
+					return true
+				default:
+					return false
+				}
+			}
+			for name, c := range map[string]<-chan struct{}{"root": rootW, "get": getW, "prefix": prefW} {
+				r.Count("watch_verdicts", 1)
+				if !closed(c) {
+					r.Violation("watch/not-closed/shared-lineage/"+name, run, map[string]any{"message": fmt.Sprintf("run %d step %d: the %s channel of the previous tree for key m%d is open after CommitAndNotify returned, with other goroutines opening transactions on trees of the same lineage", run, i, name, k)})
+				}
+			}
+			_ = otherW
+			latest.Store(&next)
+		}
+		close(stop)
+		wg.Wait()
+		r.Count("side_txns", side.Load())
+		r.Case(uint64(run), side.Load() > 0)
+	}
+	r.Finish()
+}
